@@ -104,6 +104,7 @@ def check(rec):
 
     buffer = []          # model: [value, optional?]
     closed = False
+    states = rec.notes.setdefault("states", set())
     put_seen = {}        # value -> state
     received = {}        # value -> actor
     waiting = {}         # consumer -> tick at which it began to wait
@@ -119,6 +120,8 @@ def check(rec):
                     "clock moved from %r to %r with items %r buffered while %r wait(s)"
                     % (last_time, now, firm, sorted(waiting)))
         last_time = now
+        states.add((min(len(buffer), 3), min(len(waiting), 3), closed,
+                    any(t <= tick for v in faulted.values() for t, _ in v)))
         if kind == "start":
             started.add(actor)
         elif kind == "end":
@@ -243,4 +246,5 @@ def observe(rec):
     plan = rec.case.get("plan") or []
     sig.append(tuple((f.get("as", f["kind"]), f.get("victim"), f["tick"]) for f in plan))
     return {"stats": stats, "signature": tuple(sig),
-            "nontrivial": blocked or any(k.startswith("fault.observed") for k in stats)}
+            "nontrivial": blocked or any(k.startswith("fault.observed") for k in stats),
+            "states": sorted(rec.notes.get("states", ()))}
